@@ -191,13 +191,13 @@ Qed.
 (* why the facts matter: with a READ lock in Register two registrations can interleave their read-then-write and one is
    lost; without the copy, the caller's later writes reach the store *)
 Lemma register_under_rlock_loses_a_function :
-  let f := mkFacts 1 1 [] [] true true true true true 1 [] [] [] true CapLen LRLock true LRLock LRLock in
+  let f := mkFacts 1 1 [] [] true true true true true 1 [] [] [] SrcErr true CapLen LRLock true LRLock LRLock in
   let s := run (s_step f) (s_init [[SReg [1]]; [SReg [2]]]) [0; 1; 0; 1; 0; 1; 0; 1; 0; 1] in
   s_regdone s = [2; 1] /\ s_fns s = [2].
 Proof. split; reflexivity. Qed.
 
 Lemma register_without_copy_loses_functions :
-  let f := mkFacts 1 1 [] [] true true true true true 1 [] [] [] true CapLen LLock false LRLock LRLock in
+  let f := mkFacts 1 1 [] [] true true true true true 1 [] [] [] SrcErr true CapLen LLock false LRLock LRLock in
   let s := run (s_step f) (s_init [[SReg [1; 2]; SScribble]]) [0; 0; 0; 0; 0; 0] in
   s_regdone s = [1; 2] /\ s_fns s = [].
 Proof. split; reflexivity. Qed.
